@@ -564,6 +564,7 @@ def task_context(k):
         stack.callback(lambda: _np.seterr(**old_err))
         stack.enter_context(warnings.catch_warnings())
         warnings.simplefilter("error")
+        warnings.filterwarnings("ignore", category=SyntaxWarning)   # compile-time warnings of a (re)import are not part of the call
         _np.seterr(all="raise")
         import io as _io
         import sys as _sys
@@ -630,6 +631,7 @@ def replay(case):
             old_err = _np.geterr()
             with warnings.catch_warnings():
                 warnings.simplefilter("error")
+                warnings.filterwarnings("ignore", category=SyntaxWarning)   # compile-time warnings of a (re)import are not part of the call
                 _np.seterr(all="raise")
                 try:
                     got = H.run_op(e.ops[j], objs)
